@@ -158,6 +158,9 @@ def classify(prop, mech_counts, mech_cases):
 def write_replays(prop, violations, mech_cases):
     d = os.path.join(VERIF, 'replays' if REPO == '/repo' else os.path.join('.scratch', 'replays_mutants'), prop)
     os.makedirs(d, exist_ok=True)
+    for old in os.listdir(d):              # witnesses of earlier runs would only confuse
+        if old.endswith('.json'):
+            os.unlink(os.path.join(d, old))
     paths = []
     for i, mech in enumerate(violations):
         cases = mech_cases.get(mech) or [{'case': None, 'detail': ''}]
